@@ -3,41 +3,57 @@ package main
 // Translation of small pure Go functions into Gallina definitions (coq/Gen/GenFuncs.v, tie T1).
 //
 // Every function listed in funcSpecs is translated statement by statement into a definition
-// gf_<pkg>_<name> over Z (integers of every width), bool, tuples (structs, flattened field by field) and
-// list Z (fixed-size arrays).  coq/Proofs/GenFuncsProofs.v proves each generated definition equal to the
-// hand-written model function for all inputs of the Go types, so that an edit of the Go function changes the
-// generated text and breaks a named theorem of coq/Properties/T1.v.
+// gf_<pkg>_<name> over Z (integers of every width), bool, tuples (structs, flattened field by field), list Z
+// (fixed-size arrays, strings as their bytes).  coq/Proofs/GenFuncsProofs.v proves each generated definition
+// equal to the hand-written model function for all inputs of the Go types, so that an edit of the Go function
+// changes the generated text and breaks a named theorem of coq/Properties/T1.v.
 //
-// The scheme (anything else is reported through problem and the function is not emitted):
+// The scheme (anything else is reported through problem; the function then keeps the text of the golden copy,
+// marked FALLBACK, so that the development still builds, and the exit status says that the tie is broken):
 //
 //	values      uintN -> Z in [0, 2^N); intN -> Z in [-2^(N-1), 2^(N-1)); int/uint are 64 bit; bool -> bool;
 //	            struct -> one variable per field (a tuple where a single value is needed);
-//	            [n]T -> list Z; named types are resolved to their underlying type
+//	            [n]T -> list Z; string -> list Z (bytes); named types are resolved to their underlying type;
+//	            an error result -> bool (true = nil): only nil-ness is kept, constructors qerrors.New,
+//	            errors.New and fmt.Errorf all mean "not nil"
 //	arithmetic  + - * and conversions wrap explicitly (gu8 … gs64); / % are Z.quot/Z.rem on signed and
 //	            Z.div/Z.modulo on unsigned operands; a divisor that is not a non-zero constant makes the
 //	            function partial; shifts with a constant count below the width are Z.shiftl/Z.shiftr, other
-//	            counts go through gshl/gshr; & | ^ &^ are the Z bit operations (two's complement)
-//	constants   untyped constant expressions are folded exactly and take the type of the other operand
-//	statements  return, x := e, var x T [= e], x = e, x op= e, x++/x--, a, b := e1, e2,
-//	            a, b := bits.Mul64(..), if/else, expression statements calling translated functions,
-//	            panic(..), for init; cond; post {..} with break/continue (recursion on fuel, see below)
+//	            (unsigned) counts go through gshl/gshr; & | ^ &^ are the Z bit operations (two's complement)
+//	constants   untyped constant expressions are folded exactly and take the type of the other operand; an
+//	            untyped constant shifted by a variable count takes its type from the context
+//	statements  return (also several and named results), x := e, var x T [= e], x = e, x op= e, x++/x--,
+//	            a, b := e1, e2, a, b := f(..), a[i] = e, if/else, expression statements calling translated
+//	            functions, panic(..), for init; cond; post {..} with break/continue
+//	if          when no branch leaves the statement early the branches compute the new values of the variables
+//	            they assign (let (x, y) := if c then .. else .. in ..); otherwise the rest of the block is
+//	            continued inside both branches
+//	loops       recursion on fuel (the Coq term given in funcSpecs).  A loop without return is a function
+//	            from the variables it mentions to the new values of the outer variables it assigns; a loop
+//	            with a return inside also contains the statements that follow it.  Fuel exhausted = None
 //	partiality  a function that can panic (panic, failed index, division, call of a partial function) or
-//	            contains a loop returns option; None = the Go function panics or the fuel given in
-//	            funcSpecs is exhausted.  Partial operations under && and || are rejected.
-//	calls       other functions of funcSpecs (same package, or pkg.F through the import table),
-//	            bits.Mul64, bits.Len64, bits.LeadingZeros64, bits.TrailingZeros64
+//	            contains a loop returns option; None = the Go function panics or the fuel is exhausted.
+//	            Partial operations on the right of && and || are rejected (evaluation order)
+//	calls       other functions of funcSpecs (same package, or pkg.F through the import table), methods of
+//	            local variables, bits.Mul64, bits.Len64, bits.LeadingZeros64, bits.TrailingZeros64, len,
+//	            strings.HasPrefix, strings.HasSuffix; a string argument that is only handed to panic is dropped
 //	receivers   a value receiver is the first argument; a method with a pointer receiver to an array and
-//	            no result returns the updated array
-//	tables      package level arrays of integer constants used by a translated function are emitted as
-//	            gt_<pkg>_<name> : list Z
+//	            no result returns the updated array; one that only reads is treated as a value receiver
+//	tables      package level arrays of integer or struct constants used by a translated function are
+//	            emitted as gt_<pkg>_<name> : list Z / list (Z * Z)
+//	not handled variable shadowing, signed variable shift counts, typed constants, floats, slices, maps,
+//	            pointers, closures, defer, goto, switch, range, labels, recursion
 
 import (
 	"bytes"
+	"flag"
 	"fmt"
 	"go/ast"
 	"go/printer"
 	"go/token"
 	"math/big"
+	"os"
+	"path/filepath"
 	"sort"
 	"strconv"
 	"strings"
@@ -71,6 +87,8 @@ var funcSpecs = []funcSpec{
 	{"internal/strings", "Pointer.Offset", ""},
 	{"internal/strings", "Pointer.Len", ""},
 	{"internal/strings", "Pointer.IsNull", ""},
+	{"internal/strings", "isQuoted", ""},
+	{"internal/strings", "CheckName", ""},
 	{"internal/ecolumn", "bitset.set", ""},
 	{"internal/ecolumn", "bitset.isSet", ""},
 	{"internal/ecolumn", "enumVal.isNull", ""},
@@ -106,7 +124,9 @@ const (
 	gfArray
 	gfTuple   // result of a multi-value call
 	gfUnit    // no result
-	gfString  // only as a parameter that is handed to panic
+	gfString  // a string: the list of its bytes
+	gfMsg     // a string argument that is only handed to panic: dropped
+	gfErr     // an error result, observed only as nil (true) / not nil (false)
 	gfUntyped // untyped integer constant (val set)
 	gfNeedCtx // untyped constant shifted by a variable count: the type comes from the context
 	gfBad
@@ -127,6 +147,8 @@ var (
 	gfBoolT   = &gfType{kind: gfBool}
 	gfUnitT   = &gfType{kind: gfUnit}
 	gfStringT = &gfType{kind: gfString}
+	gfMsgT    = &gfType{kind: gfMsg}
+	gfErrT    = &gfType{kind: gfErr}
 	gfBadT    = &gfType{kind: gfBad}
 	gfIntT    = &gfType{kind: gfInt, signed: true, bits: 64}
 	gfU64T    = &gfType{kind: gfInt, signed: false, bits: 64}
@@ -154,6 +176,8 @@ func gfBasic(name string) *gfType {
 		return gfBoolT
 	case "string":
 		return gfStringT
+	case "error":
+		return gfErrT
 	}
 	return nil
 }
@@ -207,8 +231,10 @@ func (t *gfType) coq() string {
 	switch t.kind {
 	case gfInt:
 		return "Z"
-	case gfBool:
+	case gfBool, gfErr:
 		return "bool"
+	case gfString:
+		return "list Z"
 	case gfUnit:
 		return "unit"
 	case gfArray:
@@ -238,6 +264,10 @@ func (t *gfType) goName() string {
 		return fmt.Sprintf("[%d]%s", t.n, t.elems[0].goName())
 	case gfUntyped:
 		return "untyped constant"
+	case gfString, gfMsg:
+		return "string"
+	case gfErr:
+		return "error"
 	}
 	return "?"
 }
@@ -451,9 +481,9 @@ type gfFunc struct {
 	partial bool
 	params  []gfVar
 	result  *gfType
-	recvOut *gfVar // pointer receiver returned as the result
+	recvOut *gfVar  // pointer receiver returned as the result
 	resVars []gfVar // named results (Go names)
-	text    string // the definitions (auxiliary loop functions first)
+	text    string  // the definitions (auxiliary loop functions first)
 	ok      bool
 	busy    bool
 }
@@ -676,6 +706,19 @@ func (c *gfCtx) expr(env *gfEnv, e ast.Expr, want *gfType) (string, *gfType) {
 	switch t := e.(type) {
 	case *ast.ParenExpr:
 		return c.expr(env, t.X, want)
+	case *ast.BasicLit:
+		if t.Kind == token.STRING {
+			str, err := strconv.Unquote(t.Value)
+			if err != nil {
+				c.fail("string literal not understood")
+				return "[]", gfBadT
+			}
+			var bs []string
+			for _, b := range []byte(str) {
+				bs = append(bs, strconv.Itoa(int(b)))
+			}
+			return "[" + strings.Join(bs, "; ") + "]", gfStringT
+		}
 	case *ast.Ident:
 		switch t.Name {
 		case "true":
@@ -683,9 +726,12 @@ func (c *gfCtx) expr(env *gfEnv, e ast.Expr, want *gfType) (string, *gfType) {
 		case "false":
 			return "false", gfBoolT
 		}
+		if t.Name == "nil" && want != nil && want.kind == gfErr {
+			return "true", gfErrT
+		}
 		if vt, ok := env.typ[t.Name]; ok {
-			if vt.kind == gfString {
-				c.fail("string variable %s used as a value", t.Name)
+			if vt.kind == gfMsg {
+				c.fail("string variable %s is classified as a panic message but used as a value", t.Name)
 				return "0", gfBadT
 			}
 			return gfValue(t.Name, vt), vt
@@ -1067,6 +1113,41 @@ func (c *gfCtx) call(env *gfEnv, call *ast.CallExpr, want *gfType) (string, *gfT
 			}
 		}
 	}
+	// len
+	if id, ok := call.Fun.(*ast.Ident); ok && id.Name == "len" && len(call.Args) == 1 {
+		x, tx := c.expr(env, call.Args[0], nil)
+		switch tx.kind {
+		case gfString:
+			return fmt.Sprintf("(Z.of_nat (length %s))", x), gfIntT
+		case gfArray:
+			return strconv.Itoa(tx.n), gfIntT
+		}
+		c.fail("len of %s", tx.goName())
+		return "0", gfBadT
+	}
+	// strings.HasPrefix / HasSuffix; error constructors (an error is observed only as nil / not nil)
+	if sel, ok := call.Fun.(*ast.SelectorExpr); ok {
+		if id, ok := sel.X.(*ast.Ident); ok {
+			path := g.imports[id.Name]
+			if path == "strings" && (sel.Sel.Name == "HasPrefix" || sel.Sel.Name == "HasSuffix") && len(call.Args) == 2 {
+				a, ta := c.expr(env, call.Args[0], nil)
+				b, tb := c.expr(env, call.Args[1], nil)
+				if ta.kind != gfString || tb.kind != gfString {
+					c.fail("strings.%s on values that are not strings", sel.Sel.Name)
+					return "false", gfBadT
+				}
+				fn := "ghasprefix"
+				if sel.Sel.Name == "HasSuffix" {
+					fn = "ghassuffix"
+				}
+				return fmt.Sprintf("(%s %s %s)", fn, a, b), gfBoolT
+			}
+			if want != nil && want.kind == gfErr &&
+				(path == gfModulePrefix+"qerrors" && sel.Sel.Name == "New" || path == "errors" && sel.Sel.Name == "New" || path == "fmt" && sel.Sel.Name == "Errorf") {
+				return "false", gfErrT
+			}
+		}
+	}
 	// math/bits
 	if sel, ok := call.Fun.(*ast.SelectorExpr); ok {
 		if id, ok := sel.X.(*ast.Ident); ok && g.imports[id.Name] == "math/bits" {
@@ -1141,13 +1222,13 @@ func (c *gfCtx) call(env *gfEnv, call *ast.CallExpr, want *gfType) (string, *gfT
 	}
 	var params []gfVar
 	for _, p := range callee.params {
-		if p.typ.kind != gfString {
+		if p.typ.kind != gfMsg {
 			params = append(params, p)
 		}
 	}
 	var goArgs []ast.Expr
 	for i, a := range args {
-		if i < len(callee.params) && callee.params[i].typ.kind == gfString {
+		if i < len(callee.params) && callee.params[i].typ.kind == gfMsg {
 			continue
 		}
 		goArgs = append(goArgs, a)
@@ -1299,7 +1380,7 @@ func (c *gfCtx) declareNew(env *gfEnv, name string, t *gfType) bool {
 		c.fail("variable %s declared twice (shadowing is not supported)", name)
 		return false
 	}
-	if t.kind != gfInt && t.kind != gfBool && t.kind != gfStruct && t.kind != gfArray {
+	if t.kind != gfInt && t.kind != gfBool && t.kind != gfStruct && t.kind != gfArray && t.kind != gfString {
 		c.fail("variable %s of unsupported type", name)
 		return false
 	}
@@ -1734,7 +1815,7 @@ func (c *gfCtx) loop(env *gfEnv, t *ast.ForStmt, rest func() string) string {
 		var params, args []string
 		for _, n := range lenv.order {
 			for _, v := range gfFlat(n, lenv.typ[n]) {
-				if v.typ.kind == gfString {
+				if v.typ.kind == gfMsg {
 					continue
 				}
 				params = append(params, fmt.Sprintf("(%s : %s)", v.name, v.typ.coq()))
@@ -1838,7 +1919,7 @@ func (c *gfCtx) loopState(env *gfEnv, t *ast.ForStmt, rest func() string) string
 		}
 		var params, args []string
 		for _, n := range lenv.order {
-			if !used[n] || lenv.typ[n].kind == gfString {
+			if !used[n] || lenv.typ[n].kind == gfMsg {
 				continue
 			}
 			for _, v := range gfFlat(n, lenv.typ[n]) {
@@ -1884,6 +1965,27 @@ func (c *gfCtx) resultCoq() string {
 	return r
 }
 
+// gfOnlyPanicArg: every use of the identifier in the body is as the argument of panic (and there is one).
+func gfOnlyPanicArg(body ast.Node, name string) bool {
+	uses, inPanic := 0, 0
+	ast.Inspect(body, func(x ast.Node) bool {
+		switch t := x.(type) {
+		case *ast.Ident:
+			if t.Name == name {
+				uses++
+			}
+		case *ast.CallExpr:
+			if id, ok := t.Fun.(*ast.Ident); ok && id.Name == "panic" && len(t.Args) == 1 {
+				if a, ok := t.Args[0].(*ast.Ident); ok && a.Name == name {
+					inPanic++
+				}
+			}
+		}
+		return true
+	})
+	return uses > 0 && uses == inPanic
+}
+
 // ------------------------------------------------------------------ one function
 
 func gfGet(key string) *gfFunc {
@@ -1893,6 +1995,9 @@ func gfGet(key string) *gfFunc {
 	}
 	if f.text == "" && !f.busy && f.fd != nil {
 		gfTranslate(f)
+		if !f.ok {
+			gfOrder = append(gfOrder, f) // keeps its place for the fallback text
+		}
 	}
 	return f
 }
@@ -1941,9 +2046,12 @@ func gfTranslate(f *gfFunc) {
 			te = st.X
 		}
 		pt := g.resolveType(te, 0)
-		if pt == nil || pt.kind == gfString && recv {
+		if pt == nil || pt.kind == gfErr {
 			c.fail("parameter %s: type not supported", name)
 			return false
+		}
+		if pt.kind == gfString && gfOnlyPanicArg(fd.Body, name) {
+			pt = gfMsgT
 		}
 		if ptr && pt.kind != gfArray {
 			c.fail("pointer receiver of a type that is not an array")
@@ -1998,7 +2106,7 @@ func gfTranslate(f *gfFunc) {
 		var rts []*gfType
 		for _, r := range fd.Type.Results.List {
 			rt := g.resolveType(r.Type, 0)
-			if rt == nil || rt.kind != gfInt && rt.kind != gfBool && rt.kind != gfStruct {
+			if rt == nil || rt.kind != gfInt && rt.kind != gfBool && rt.kind != gfStruct && rt.kind != gfErr {
 				c.fail("result type not supported")
 				return
 			}
@@ -2064,7 +2172,7 @@ func gfTranslate(f *gfFunc) {
 	var ps []string
 	var destruct string
 	for _, p := range f.params {
-		if p.typ.kind == gfString {
+		if p.typ.kind == gfMsg {
 			continue
 		}
 		ps = append(ps, fmt.Sprintf("(%s : %s)", gfCoqVar(p.name), p.typ.coq()))
@@ -2122,6 +2230,14 @@ Fixpoint gset (a : list Z) (i : nat) (v : Z) : list Z :=
   end.
 Definition gupd (n : Z) (a : list Z) (i v : Z) : option (list Z) :=
   if (i <? 0) || (n <=? i) || (Z.of_nat (length a) <=? i) then None else Some (gset a (Z.to_nat i) v).
+(* strings.HasPrefix / strings.HasSuffix on byte lists *)
+Fixpoint ghasprefix (s p : list Z) : bool :=
+  match p, s with
+  | [], _ => true
+  | x :: p', y :: s' => (x =? y) && ghasprefix s' p'
+  | _ :: _, [] => false
+  end.
+Definition ghassuffix (s p : list Z) : bool := ghasprefix (rev s) (rev p).
 (* math/bits *)
 Definition gmul64 (a b : Z) : Z * Z := ((a * b) / 18446744073709551616, (a * b) mod 18446744073709551616).
 Definition glen64 (x : Z) : Z := if x =? 0 then 0 else Z.log2 x + 1.
@@ -2129,6 +2245,21 @@ Fixpoint gtz_pos (p : positive) : Z := match p with xO q => 1 + gtz_pos q | _ =>
 Definition gtz64 (x : Z) : Z := match x with Z0 => 64 | Zpos p => gtz_pos p | Zneg _ => 0 end.
 
 `
+
+// gfGoldenBlock returns the text between "(* BEGIN name *)" and "(* END name *)" of the golden copy.
+func gfGoldenBlock(golden, name string) (string, bool) {
+	b := "(* BEGIN " + name + " *)\n"
+	e := "(* END " + name + " *)\n"
+	i := strings.Index(golden, b)
+	if i < 0 {
+		return "", false
+	}
+	j := strings.Index(golden[i:], e)
+	if j < 0 {
+		return "", false
+	}
+	return golden[i+len(b) : i+j], true
+}
 
 func genFuncs() string {
 	for _, sp := range funcSpecs {
@@ -2144,20 +2275,57 @@ func genFuncs() string {
 		f := gfFuncs[sp.pkg+":"+sp.fn]
 		if f.fd == nil {
 			problem("function %s not found in %s", sp.fn, sp.pkg)
+			gfOrder = append(gfOrder, f)
 			continue
 		}
 		gfGet(sp.pkg + ":" + sp.fn)
+	}
+	// A function that could not be translated keeps the text of the last validated tree (golden copy), marked
+	// FALLBACK, so that the rest of the development still builds; the problem is reported all the same.
+	golden := ""
+	if fl := flag.Lookup("golden"); fl != nil && fl.Value.String() != "" {
+		if gb, err := os.ReadFile(filepath.Join(fl.Value.String(), "GenFuncs.v")); err == nil {
+			golden = string(gb)
+		}
+	}
+	var fb strings.Builder
+	for _, f := range gfOrder {
+		text := f.text
+		if !f.ok {
+			old, found := gfGoldenBlock(golden, f.name)
+			if !found {
+				continue
+			}
+			text = "(* FALLBACK " + f.name + ": not derivable from the current source; text of the last validated tree *)\n" + old
+		}
+		fmt.Fprintf(&fb, "(* BEGIN %s *)\n%s(* END %s *)\n\n", f.name, text, f.name)
+	}
+	funcsText := fb.String()
+	// tables: the ones the translated functions use, plus golden ones that a fallback text mentions
+	for rest := golden; ; {
+		i := strings.Index(rest, "(* BEGIN gt_")
+		if i < 0 {
+			break
+		}
+		rest = rest[i+len("(* BEGIN "):]
+		j := strings.Index(rest, " *)")
+		if j < 0 {
+			break
+		}
+		name := rest[:j]
+		if _, have := gfTables[name]; !have && strings.Contains(funcsText, name) {
+			if old, found := gfGoldenBlock(golden, name); found {
+				gfTables[name] = "(* FALLBACK " + name + " *)\n" + old
+				gfTableOrder = append(gfTableOrder, name)
+			}
+		}
 	}
 	var b strings.Builder
 	b.WriteString(gfPreamble)
 	sort.Strings(gfTableOrder)
 	for _, n := range gfTableOrder {
-		b.WriteString(gfTables[n])
-		b.WriteString("\n")
+		fmt.Fprintf(&b, "(* BEGIN %s *)\n%s(* END %s *)\n\n", n, gfTables[n], n)
 	}
-	for _, f := range gfOrder {
-		b.WriteString(f.text)
-		b.WriteString("\n")
-	}
+	b.WriteString(funcsText)
 	return b.String()
 }
